@@ -21,7 +21,8 @@ DEV_SEQ = {"AliasDefaults": {"cache", "history"}, "CollideEither": {"nondetermin
            "StripRestore": {"argument"}, "DirtyScratch": {"history"}, "EnumEarlyReturn": {"nondeterministic"},
            "StaleMemo": {"history", "nondeterministic"}, "SharedError": {"history"},
            "SortInPlace": {"describe"}, "ConvertInPlace": {"argument"},
-           "EarlyExitWalk": {"history", "nondeterministic"}, "LastKeyDecides": {"history", "nondeterministic"}}
+           "EarlyExitWalk": {"history", "nondeterministic"}, "LastKeyDecides": {"history", "nondeterministic"},
+           "ReuseInputContainer": {"argument"}}
 
 
 def hist_cases(recs, reps, targeted=False):
